@@ -22,8 +22,10 @@
   Text is a list of code points (Python strings may hold lone surrogates, Lean `String`s may not).
   `str.strip()` is modelled (not environment): the argument of every recorded call must agree.
 
-  Not modelled: co-chaperone preprocessors and the `on_misfold` callback (both are user callbacks outside
-  the try block), `duration_ms`, console output, the text of error messages (only which kind of message).
+  Co-chaperone preprocessors and the `on_misfold` callback are modelled as arbitrary user functions (`Hooks`,
+  `foldH` / `foldXH`).  Not modelled: `duration_ms`, console output, the text of error messages (only which kind of
+  message; `str(e)` of a caught exception is taken to return), strategy-list elements that are not `FoldingStrategy`
+  members (the counter dicts would raise KeyError outside the per-strategy `try`).
 -/
 namespace Operon.Chaperone
 
@@ -684,6 +686,55 @@ def World.setStats (w : World) (i : Nat) (st : Stats) : World :=
   match w[i]? with
   | some x => w.set i ⟨x.cfg, st⟩
   | none => w
+
+/-! ### list objects: the constructor KEEPS a non-empty caller list
+
+`self.strategies = strategies or [STRICT, …]` binds the attribute to the caller's own list object when that list is
+non-empty: two Chaperones built from one list, or a caller that edits its list afterwards, share it.  `None` and `[]`
+give the instance a list of its own.  `Heap` is the model the correspondence runs on (`World` above is the special case
+in which nobody shares). -/
+
+/-- The list objects that hold strategies (the caller's lists and the default lists instances created for themselves),
+    and the Chaperone instances in creation order, each with the object its `self.strategies` refers to and its
+    counters. -/
+structure Heap where
+  cells : List (List Strategy)
+  insts : List (Nat × Stats)
+
+def Heap.empty : Heap := ⟨[], []⟩
+
+/-- the caller creates a list object (it gets the next index) -/
+def Heap.newList (h : Heap) (l : List Strategy) : Heap := ⟨h.cells ++ [l], h.insts⟩
+
+/-- `Chaperone(strategies=arg)`, `arg` = `None` or the caller's list object `k` -/
+def Heap.construct (h : Heap) (arg : Option Nat) : Heap :=
+  match arg.bind (fun k => (h.cells[k]?).map fun l => (k, l)) with
+  | some (k, l) =>
+    if l.isEmpty then ⟨h.cells ++ [defaultStrategies], h.insts ++ [(h.cells.length, Stats.zero)]⟩
+    else ⟨h.cells, h.insts ++ [(k, Stats.zero)]⟩
+  | none => ⟨h.cells ++ [defaultStrategies], h.insts ++ [(h.cells.length, Stats.zero)]⟩
+
+/-- in-place edit of list object `k`, through whichever reference (the caller's variable, `instance.strategies`) -/
+def Heap.mutate (h : Heap) (k : Nat) (t : Tune) : Heap :=
+  match h.cells[k]? with
+  | some l => ⟨h.cells.set k (Cfg.tune ⟨l⟩ t).strategies, h.insts⟩
+  | none => h
+
+/-- the list object instance `i` refers to -/
+def Heap.cellOf (h : Heap) (i : Nat) : Option Nat := (h.insts[i]?).map (·.1)
+
+/-- `instance_i.strategies`, as a configuration -/
+def Heap.cfgOf (h : Heap) (i : Nat) : Option Cfg := (h.cellOf i).bind fun k => (h.cells[k]?).map Cfg.mk
+
+def Heap.statsOf (h : Heap) (i : Nat) : Stats := ((h.insts[i]?).map (·.2)).getD Stats.zero
+
+def Heap.setStats (h : Heap) (i : Nat) (st : Stats) : Heap :=
+  match h.insts[i]? with
+  | some x => ⟨h.cells, h.insts.set i (x.1, st)⟩
+  | none => h
+
+/-- every instance refers to an existing list object -/
+def Heap.WF (h : Heap) : Prop := ∀ e ∈ h.insts, e.1 < h.cells.length
 
 /-! ### `_coerce_types_tracked`, one level deeper
 
